@@ -13,7 +13,8 @@ type letter struct {
 	Name string
 	Raw  []byte // the bytes a client writes for this request
 	Note string
-	App  bool // exercises a response helper whose state lives in the application (not in a pooled object)
+	App  bool     // exercises a response helper whose state lives in the application (not in a pooled object)
+	Conn connAttr // what the request inherits from its connection (zero value: plain connection from 127.0.0.1:40000)
 }
 
 func req(method, target string, hdrs []string, body string) []byte {
@@ -96,6 +97,9 @@ func cookieOf(resp []byte) string {
 var (
 	historyAlphabet []*letter
 	probes          []*letter
+	// the first mainHist letters / mainProbes probes form the history x probe product; the letters
+	// after them belong to the derived-value family (derived.go), which enumerates its own pairs
+	mainHist, mainProbes int
 )
 
 func buildAlphabets() {
@@ -172,4 +176,6 @@ func buildAlphabets() {
 			probes = append(probes, &letter{Name: "sf-plain-gz", Raw: req("GET", "/sf/"+v.Name, hdrs[2:], ""), Note: "SendFile: " + v.Note + ", request without Range", App: true})
 		}
 	}
+	mainHist, mainProbes = len(historyAlphabet), len(probes)
+	buildDerived()
 }
